@@ -2,7 +2,8 @@
    they contain).  Model: Model/C11_Rinex.v (quirk off = specification); format: Spec/C11_RinexFormat.v;
    field tables: Gen/C11_Rinex{2,3}ObsFields.v (regenerated from the source on every run). *)
 From Coq Require Import Ascii String List Bool ZArith QArith Arith Lia.
-From Verif Require Import Lib.Text Lib.Decimal Lib.Fixed Model.C11_Rinex Model.C11_Check Spec.C11_RinexFormat Proofs.C11_Rinex.
+From Verif Require Import Lib.Text Lib.Decimal Lib.Fixed Model.C11_Rinex Model.C11_Check Spec.C11_RinexFormat Spec.C11_RinexFile
+     Proofs.C11_Rinex Proofs.C11_File3 Proofs.C11_Hdr3.
 Import ListNotations.
 Local Open Scope nat_scope.
 Local Open Scope string_scope.
@@ -85,6 +86,55 @@ Theorem c11_blank_continuation_refuted :
 Proof. exact blank_continuation_refuted_l. Qed.
 Print Assumptions c11_blank_continuation_refuted.
 
+(* ---- RINEX 3, whole file (Spec/C11_RinexFile.v: file3 = marker, SYS / # / OBS TYPES for any number of systems and types,
+   any number of epochs and satellites; tables = the regenerated ones) *)
+
+(* SYS / # / OBS TYPES through h_types_v3: ANY number of systems, ANY number of types per system (13 per line, continuation
+   lines): the per-system lists and the list of all types come back *)
+Theorem sys_obs_types_roundtrip : forall stt, systypes_ok stt ->
+  exists h, hfold G3.header_table (concat (map types_lines_v3 stt)) st0
+            = Some (with_types st0 (all_types stt []) stt h).
+Proof.
+  intros stt [ND F]. destruct (systems_ok stt st0 F ND) as [h H]; [intros k _ []|]. exists h. exact H.
+Qed.
+Print Assumptions sys_obs_types_roundtrip.
+
+(* the epoch record through its columns (I4, I2 or I2.2, F11.7 sub-second epochs, flag, I3, optional F15.12 clock offset,
+   trailing blanks cut or not): time text, second of day / decimation, flag and clock offset *)
+Theorem epoch_roundtrip_v3 : forall rate t nsat s c, epoch_t_wf t -> fits_int 3 nsat ->
+  v3_line rate G3.obs_table (render_epoch_v3 t nsat) s c =
+  Some (s, {| c_epoch := Some (einfo3 rate t); c_sats := c_sats c; c_len := c_len c; c_acc := c_acc c |}).
+Proof. exact v3_epoch_line. Qed.
+Print Assumptions epoch_roundtrip_v3.
+
+(* parse (render f) for EVERY well-formed file model f: the result is the post-processing of the state holding the marker,
+   the per-system type lists and one row per (epoch on the sampling grid, satellite) in file order *)
+Theorem rinex3_file_roundtrip : forall rate f, file3_ok f ->
+  parse_v3 G3.header_table G3.obs_table rate (render_file3 f) = finish_v3 (final_state3 rate f).
+Proof. exact rinex3_file_roundtrip_l. Qed.
+Print Assumptions rinex3_file_roundtrip.
+
+(* ... hence: rows = file rows in file order, and all per-record columns have the length of the row list *)
+Theorem rinex3_file_rows : forall rate f, file3_ok f -> file_rows3 rate f <> [] ->
+  exists r, parse_v3 G3.header_table G3.obs_table rate (render_file3 f) = Some r /\
+            o_rows r = file_rows3 rate f /\
+            Forall (fun col => List.length (snd col) = List.length (o_rows r)) (o_obs r).
+Proof. exact rinex3_rows_l. Qed.
+Print Assumptions rinex3_file_rows.
+
+(* the rows kept with a sampling rate are exactly those of the epochs on the grid (see decimation_spec for on_grid) *)
+Theorem decimation_file_spec : forall rate f,
+  file_rows3 rate f =
+  flat_map (fun e => if on_grid rate (sec_of (e3_t e))
+                     then epoch_rows None (f3_systypes f) (all_types (f3_systypes f) []) (f3_marker f) e else []) (f3_epochs f).
+Proof. exact decimation_file_spec_l. Qed.
+Print Assumptions decimation_file_spec.
+
+(* a row carries, for the types of its system, the values of its cells (row3) and is absent for every other type *)
+Theorem undefined_types_absent : forall mk ts all e sa t, ~ In t ts -> cell_of t (row3 mk ts all e sa) = absent.
+Proof. exact row3_undefined_absent. Qed.
+Print Assumptions undefined_types_absent.
+
 (* ---- non-vacuity *)
 Example wf_cell_ex : cell_wf {| cv := VNum (-353); clli := Some 4%Z; cssi := None |}.
 Proof. repeat split; try discriminate; try (unfold fits_F; vm_compute); lia. Qed.
@@ -97,3 +147,33 @@ Example sat_ok_ex : Forall (Forall sat_ok) [["G07"; " 12"]; ["R 5"]].
 Proof. repeat constructor; (eexists; eexists; eexists; split; [reflexivity|reflexivity]). Qed.
 Example on_grid_ex : on_grid (Some (1 # 2)) (3 # 2) = true /\ on_grid (Some (30 # 1)) (47 # 1) = false.
 Proof. split; reflexivity. Qed.
+
+(* a well-formed RINEX 3 file: two systems (E with a continuation line), two epochs, the second 2e-4 s off a 30 s grid *)
+Definition num (m : Z) : cell := {| cv := VNum m; clli := None; cssi := Some 7%Z |}.
+Definition ex_types_E : list string :=
+  ["C1X"; "L1X"; "D1X"; "S1X"; "C5X"; "L5X"; "S5X"; "C8X"; "L8X"; "S8X"; "C7X"; "L7X"; "S7X"; "C6X"].
+Definition ex_t (s7 : Z) (clk : option Z) : epoch_t :=
+  {| ep_y := 2018; ep_mo := 2; ep_d := 1; ep_h := 0; ep_mi := 0; ep_s7 := s7; ep_clk := clk; ep_zero := true; ep_cut := true |}.
+Definition ex_file3 : file3 :=
+  {| f3_marker := "TRDS";
+     f3_systypes := [("G", ["C1C"; "L1C"]); ("E", ex_types_E)];
+     f3_epochs :=
+       [ {| e3_t := ex_t 300000000 (Some (-123456789012)%Z);
+            e3_sats := [ {| s3_id := "G01"; s3_cells := [num 23629347915; blankcell]; s3_cut := true |};
+                         {| s3_id := "E11"; s3_cells := map num [1;2;3;4;5;6;7;8;9;10;11;12;13;14]%Z; s3_cut := false |} ] |};
+         {| e3_t := ex_t 300002000 None;
+            e3_sats := [ {| s3_id := "G01"; s3_cells := [num 23629347916; num (-353)]; s3_cut := true |} ] |} ] |}.
+
+Lemma ex_file3_ok : file3_ok ex_file3.
+Proof.
+  unfold file3_ok, ex_file3. cbn [f3_marker f3_systypes f3_epochs]. split; [reflexivity|]. split; [vm_compute; lia|]. split.
+  - split; [repeat constructor; cbn; intuition discriminate|].
+    repeat constructor; cbn [fst snd]; try (eexists; split; reflexivity); try discriminate;
+      try (unfold type3_ok; split; reflexivity); try (vm_compute; lia).
+  - repeat constructor; cbn [e3_t e3_sats ex_t ep_y ep_mo ep_d ep_h ep_mi ep_s7 ep_clk]; try lia;
+      try (unfold fits_int, fits_F; vm_compute; lia); try exact I.
+    all: try (do 3 eexists; split; [reflexivity|]; split; [eexists; split; [cbn; eauto|reflexivity]|]; split; [vm_compute; lia|split; reflexivity]).
+    all: try (cbn [s3_cells map]; repeat constructor; try discriminate; try (unfold fits_F; vm_compute; lia); try exact I; cbn; lia).
+Qed.
+Example ex_rows : map r_sat (file_rows3 (Some (30 # 1)) ex_file3) = ["G01"; "E11"] /\ map r_sat (file_rows3 None ex_file3) = ["G01"; "E11"; "G01"].
+Proof. vm_compute. split; reflexivity. Qed.
